@@ -27,6 +27,15 @@ def collect():
                     texts.append(bytes(s, "utf-8").decode("unicode_escape").encode("latin-1", "ignore").decode("utf-8", "ignore") if "\\" in s else s)
                 except Exception:
                     texts.append(s)
+    # edge positions: characters with a special role somewhere in a tool chain (byte-order mark, NUL, line and paragraph
+    # separators, no-break and zero-width blanks, a combining mark, a 4-byte character, CR, the replacement character) at the
+    # very start and the very end of short programs, alone and doubled
+    specials = ["\ufeff", "\x00", "\u2028", "\u2029", "\u00a0", "\u200b", "\u0301", "\U0001F600", "\r", "\ufffd", "\uff08", "\u00b5"]
+    bases = ["", "qubit q;", "int x = 1;\n", "include \"stdgates.inc\";\nh q;", "OPENQASM 3.0;\nqubit q;", "x = 10", "// c"]
+    for sp in specials:
+        for b in bases:
+            texts += [sp + b, b + sp, sp + b + sp]
+        texts.append(sp + sp)
     seen = set(); out = []
     for t in texts:
         if t not in seen and len(t) < 65536:
